@@ -130,12 +130,12 @@ func loadEngine(repoDir, harnessDir string, overlay map[string][]byte, extraPatt
 	}
 	for _, p := range []string{"io", "bufio", "bytes", "strings", "slices", "sort", "cmp",
 		"golang.org/x/exp/maps", "golang.org/x/exp/slices", "golang.org/x/exp/constraints", "maps",
-		"unicode/utf8", "math/bits", "iter",
+		"unicode/utf8", "math/bits", "iter", "strconv", "sort", "internal/itoa", "internal/stringslite",
 		"internal/itoa", "internal/oserror"} {
 		e.initAllow[p] = true
 	}
 	// packages whose package-level variables are only lookup tables we never read through real code
-	for _, p := range []string{"errors", "strconv", "internal/cpu", "runtime", "internal/bytealg", "internal/godebug", "unsafe", "sync", "sync/atomic", "internal/race", "fmt", "reflect", "os", "syscall", "time"} {
+	for _, p := range []string{"errors", "internal/cpu", "runtime", "internal/bytealg", "internal/godebug", "unsafe", "sync", "sync/atomic", "internal/race", "fmt", "reflect", "os", "syscall", "time"} {
 		e.harmlessGlobals[p] = true
 	}
 	registerIntrinsics(e)
@@ -194,7 +194,12 @@ func (e *Engine) intrinsicFor(fn *ssa.Function) intrinsic {
 		if fn.Name() == "init" && fn.Pkg != nil && fn.Signature.Recv() == nil && fn.Parent() == nil && fn.Synthetic != "" {
 			p := fn.Pkg
 			h = func(ex *Exec, _ *ssa.Function, _ []Value) Value {
-				ex.ensureInit(p)
+				// packages of the code under test and the harness are initialised eagerly in
+				// import order; library packages lazily, when one of their variables is first touched
+				path := p.Pkg.Path()
+				if strings.HasPrefix(path, repoModule) || strings.HasPrefix(path, harnessModule) {
+					ex.ensureInit(p)
+				}
 				return nil
 			}
 			ok = true
